@@ -188,6 +188,19 @@ EXTRA4 = {
     "C20": " Round 6: a non-finite guard of a parameter dominates every other use of it (R9); Theil-Sen records a slope for every pair (R10).",
 }
 
+EXTRA5 = {
+    "C03": " Round 7: also evaluates C02.R5 (the vacancy tracker is told 'full' exactly when the slab says so).",
+    "C08": " Round 7: a fresh link in AwaiterSet::register writes both link fields of the awaiter.",
+    "C10": " Round 7: PinStateMap never uses an index counted from the back as an index from the front.",
+    "C11": " Round 7: every method of the filesystem / bindings facades forwards to the operation of its own name.",
+    "C12": " Round 7: the per-thread maps are keyed by ThreadId.",
+    "C16": " Round 7: the thread-local registry's duplicate check precedes the global registration.",
+    "C17": " Round 7: after the worker-side result send nothing of caller-chosen type is destroyed and no user code runs.",
+    "C18": " Round 7: every process-wide static holding counters is read by allocation_totals (no write-only sink).",
+    "C19": " Round 7: every path to the atomic write passes compress.",
+    "C20": " Round 7: the tie predicate is exact equality under total_cmp (no tolerance).",
+}
+
 PENDING = "static check not implemented yet in this round (planned, see DESIGN.md section 5); not claimed until it exists"
 
 ALL = [f"C{i:02d}" for i in range(1, 21)]
@@ -199,7 +212,7 @@ def main():
         if pid not in CLAIMS:
             continue
         tech, text, note, ref = CLAIMS[pid]
-        text = text + EXTRA.get(pid, "") + EXTRA2.get(pid, "") + EXTRA3.get(pid, "") + EXTRA4.get(pid, "")
+        text = text + EXTRA.get(pid, "") + EXTRA2.get(pid, "") + EXTRA3.get(pid, "") + EXTRA4.get(pid, "") + EXTRA5.get(pid, "")
         note = note + " Names, parameter order and field names of the analysed tree are mapped back to the committed baseline vocabulary (vf/baseline.json) where unambiguous; new private helpers are inlined into their callers before the rules run."
         checks.append({
             "property_id": pid,
